@@ -3641,6 +3641,14 @@ pub fn run(args: &Args, out: &mut Out) {
                 sites(&mut items, &mut rng);
             }
         }
+        // the definition of a function declared before some of the symbols (the redefinition check of `parse_function`
+        // looks the name up through the same loop), then the same calls again
+        if i % 3 == 1 {
+            if let Some(c) = cands.iter().find(|c| c.tkinds.is_empty()) {
+                items.push(Item::Define(c.id));
+                sites(&mut items, &mut rng);
+            }
+        }
         r.seq_case(&items, &SeqPath::Free, out);
         // the same unit with the overloads the other way round
         if i % 2 == 0 {
@@ -3649,6 +3657,7 @@ pub fn run(args: &Args, out: &mut Out) {
             for (a, b) in decls.iter().zip(decls.iter().rev()) {
                 rev[*a] = items[*b].clone();
             }
+            rev.retain(|x| !matches!(x, Item::Define(_)));
             r.seq_case(&rev, &SeqPath::Free, out);
         }
     }
